@@ -900,7 +900,7 @@ func ruleDecoderGuards(c *Check, p *Prog) {
 	// cursor list codec
 	var enc, dec *ssa.Function
 	for _, f := range funcsCalling(p, rootPath+"/block", func(n string) bool {
-		return strings.HasPrefix(n, "(encoding/binary.") && strings.Contains(n, ").PutUint32")
+		return strings.HasPrefix(n, "(encoding/binary.") && (strings.Contains(n, ").PutUint32") || strings.Contains(n, ").AppendUint32"))
 	}) {
 		enc = f
 	}
@@ -925,7 +925,31 @@ func ruleDecoderGuards(c *Check, p *Prog) {
 			dOrd = k
 		}
 	}
-	same := strings.Replace(eOrd, "PutUint", "Uint", 1) == dOrd && eOrd != ""
+	for k := range es {
+		if strings.Contains(k, "encoding/binary.") && strings.Contains(k, "AppendUint") {
+			eOrd = k
+		}
+	}
+	same := strings.Replace(strings.Replace(eOrd, "PutUint", "Uint", 1), "AppendUint", "Uint", 1) == dOrd && eOrd != ""
+	// the prefix codec is an on-disk format: nodes in the field have written cursor lists with it
+	{
+		want := ""
+		if b, err := os.ReadFile(filepath.Join(filepath.Dir(variantsDir), "reference", "disk_formats.json")); err == nil {
+			var ref map[string]string
+			if json.Unmarshal(b, &ref) == nil {
+				want = ref["cursor_list_length_prefix"]
+			}
+		}
+		got := strings.TrimPrefix(strings.Replace(dOrd, ").", ".", 1), "(encoding/binary.")
+		switch {
+		case want == "":
+			c.Unk(rule, "cursor-list ⟂ prefix-codec = reference", fnName(dec), "", "anchor lost: reference/disk_formats.json missing")
+		case got == want:
+			c.OK(rule, "cursor-list ⟂ prefix-codec = reference", fnName(dec), p.Pos(dec.Pos()), "length prefixes are read as "+got+", the format of the lists already on disk", true)
+		default:
+			c.Bad(rule, "cursor-list ⟂ prefix-codec = reference", fnName(dec), p.Pos(dec.Pos()), "length prefixes are read as "+got+" but the cursor lists already on disk were written as "+want+": a list persisted by an earlier version no longer decodes (a length of 3 reads as 50331648, the decoder reports corrupted data and the node starts without its batch cursor), and fixed values no longer keep their bytes", nil)
+		}
+	}
 	if same {
 		c.OK(rule, "cursor-list ⟂ same-prefix-codec", fnName(enc), p.Pos(enc.Pos()), eOrd+" / "+dOrd, true)
 	} else {
@@ -998,7 +1022,15 @@ func ruleGobTypes(c *Check, p *Prog) {
 	g := BuildECFG(p, lc, ExpandOpts{MaxDepth: 0})
 	c.NoteGraph(g)
 	regs := g.Select(IsCall("encoding/gob.Register"))
-	loads := g.Select(func(n *Node) bool { return strings.HasSuffix(CallName(n), "Cache[_]).LoadFromDisk") })
+	loads := g.Select(func(n *Node) bool {
+		if strings.HasSuffix(CallName(n), "Cache[_]).LoadFromDisk") {
+			return true
+		}
+		// the loader taken as a method value (a table of load steps walked by a loop): the value
+		// is created before it is called
+		mc, ok := n.In.(*ssa.MakeClosure)
+		return ok && n.Kind == NInstr && strings.HasSuffix(strings.TrimSuffix(genericName(fnName(mc.Fn.(*ssa.Function))), "$bound"), "Cache[_]).LoadFromDisk")
+	})
 	if len(regs) < 2 || len(loads) == 0 {
 		c.Bad(rule, "LoadCache ⟂ register<load", fnName(lc), p.Pos(lc.Pos()), fmt.Sprintf("%d gob registrations, %d loads", len(regs), len(loads)), nil)
 	} else {
